@@ -560,6 +560,8 @@ func canHoldSessionData(t types.Type, s *Sem, d int) bool {
 func c20(r *Report, s *Sem) {
 	p := r.P
 	a := s.anchors()
+	R12 := r.Rule("R12", "which the server then finishes: once the deferred finishing block of the serving function is armed, nothing on the way out closes the channel (a Close in the handler-error branch makes the block skip FinishSession: the peer loses the connection without a finished envelope)", 1)
+	defer checkNoCloseBeforeDeferredFinish(r, s, R12)
 	R11 := r.Rule("R11", "the tables dispatched from are the tables registered into: an EnvelopeMux is only ever handled through pointers — never loaded, stored, passed or held in a field by value (a copy taken at construction misses every handler registered afterwards, so an envelope goes to a later-matching handler or to none)", 1)
 	defer checkNeverCopied(r, R11, p.Type("EnvelopeMux"), "an EnvelopeMux handled by value is a copy of the handler tables at that moment")
 	defer r.Import(s, "C04", "R3", "R10", "no envelope is discarded before dispatch: in the receiver every kind is forwarded to its stream by a blocking select without a default arm (a kind dropped when its buffer is full reaches zero handlers)", 5)
